@@ -22,7 +22,8 @@ import (
 
 // one height of a behaviour of MC_EvidenceNet
 type netStep struct {
-	Ev  []json.RawMessage `json:"ev"` // kind, round, type, observers, offender
+	Ev  []json.RawMessage `json:"ev"` // kind, round, type, observers, offender, block pair
+	Iv  []AVote           `json:"iv"` // the two votes in the order in which the observers see them
 	Rs  int               `json:"rs"`
 	Pv  int               `json:"pv"` // the Byzantine validator that plays the private precommit (kind 4)
 	E   json.RawMessage   `json:"e"`
@@ -187,6 +188,11 @@ func (r *netRun) producedCheck(hh uint64, kind int, kindName string, obs []int, 
 			}
 			return r.fail("evidence:e2e:not-produced:"+kindName, fmt.Sprintf("node %d at height %d saw validator %d's conflicting votes (%s) and reported no evidence", o, hh, e.A[0], describe(want)))
 		}
+		if stampDiff(other, want) == "order" {
+			return r.fail("evidence:e2e:misstamped:order:"+kindName,
+				fmt.Sprintf("node %d at height %d built evidence of validator %d's conflicting votes with the votes in the wrong order [%s]; VoteA has to carry the smaller BlockID.Key() [%s]: no decoding (the pool's own database, gossip, a block) takes it back, it is never proposed and every peer refuses it",
+					o, hh, e.A[0], describe(other), describe(want)))
+		}
 		return r.fail("evidence:e2e:misstamped:"+stampDiff(other, want)+":"+kindName,
 			fmt.Sprintf("node %d at height %d turned validator %d's conflicting votes of height %d into evidence stating [%s]; the facts of that height are [%s] (every other node verifies against those)",
 				o, hh, e.A[0], want.VoteA.Height, describe(other), describe(want)))
@@ -274,13 +280,20 @@ func describe(ev types.Evidence) string {
 	if !ok {
 		return fmt.Sprintf("%T", ev)
 	}
-	return fmt.Sprintf("height %d round %d type %d power %d total %d time %s", d.VoteA.Height, d.VoteA.Round, d.VoteA.Type,
-		d.ValidatorPower, d.TotalVotingPower, d.Timestamp.UTC().Format("15:04:05.000000000"))
+	bid := func(b types.BlockID) string { // the test block ids differ in their last bytes
+		h, p := b.Hash.Hex(), b.PartsHeader.Hash.Hex()
+		return fmt.Sprintf("%s:%s#%d", h[len(h)-4:], p[len(p)-4:], b.PartsHeader.Total)
+	}
+	return fmt.Sprintf("height %d round %d type %d VoteA %s VoteB %s power %d total %d time %s", d.VoteA.Height, d.VoteA.Round, d.VoteA.Type,
+		bid(d.VoteA.BlockID), bid(d.VoteB.BlockID), d.ValidatorPower, d.TotalVotingPower, d.Timestamp.UTC().Format("15:04:05.000000000"))
 }
 
 // how a real evidence differs from the expected one about the same votes
 func stampDiff(got, want *types.DuplicateVoteEvidence) string {
 	switch {
+	case got.VoteA.Height == want.VoteA.Height && got.VoteA.Round == want.VoteA.Round && got.VoteA.Type == want.VoteA.Type &&
+		got.VoteA.BlockID.Equal(want.VoteB.BlockID) && got.VoteB.BlockID.Equal(want.VoteA.BlockID):
+		return "order" // the same two votes the other way round: no decoding (ValidateBasic) takes that
 	case got.VoteA.Height != want.VoteA.Height || got.VoteA.Round != want.VoteA.Round || got.VoteA.Type != want.VoteA.Type ||
 		!got.VoteA.BlockID.Equal(want.VoteA.BlockID) || !got.VoteB.BlockID.Equal(want.VoteB.BlockID):
 		return ""
@@ -317,25 +330,31 @@ func (r *netRun) height(hh uint64, st netStep) bool {
 	// 1. the Byzantine validator shows conflicting votes to the observers (NewHeight step of height hh)
 	var evt *AEv
 	if kind != 0 && kind != 5 {
-		var e AEv
-		if err := json.Unmarshal(st.E, &e); err != nil {
-			return r.fail("infra:parse", err.Error())
+		if len(st.Iv) != 2 {
+			return r.fail("infra:parse", "an event without the two votes to show")
 		}
-		evt = &e
+		offender := st.Iv[0][0]
 		ref := n.Nodes[n.Order[0]].CS.GetRoundState()
-		if e.A[3] == 0 {
-			if ref.LastCommit == nil {
-				return r.fail("infra:e2e-lastcommit", "no last commit for a late event")
+		showA, showB := st.Iv[0], st.Iv[1]
+		if len(st.E) > 2 { // the event is an equivocation: the evidence the observers have to report
+			var e AEv
+			if err := json.Unmarshal(st.E, &e); err != nil {
+				return r.fail("infra:parse", err.Error())
 			}
-			if _, ok := r.rounds[e.Key()]; !ok {
-				r.rounds[e.Key()] = ref.LastCommit.GetRound()
+			evt = &e
+			if e.A[3] == 0 {
+				if ref.LastCommit == nil {
+					return r.fail("infra:e2e-lastcommit", "no last commit for a late event")
+				}
+				if _, ok := r.rounds[e.Key()]; !ok {
+					r.rounds[e.Key()] = ref.LastCommit.GetRound()
+				}
+			}
+			if rr, ok := r.rounds[e.Key()]; ok {
+				showA[3], showB[3] = int(rr), int(rr)
 			}
 		}
-		c := e
-		if rr, ok := r.rounds[e.Key()]; ok {
-			c.A[3], c.B[3] = int(rr), int(rr)
-		}
-		va, vb := r.f.Vote(c.A), r.f.Vote(c.B)
+		va, vb := r.f.Vote(showA), r.f.Vote(showB)
 		for _, o := range obs {
 			if kind == 4 {
 				// Byz's own precommit of the previous height, for the decided block, with an early time, for the observers only
@@ -353,8 +372,8 @@ func (r *netRun) height(hh uint64, st netStep) bool {
 					n.Inject(o, st.Pv, &consensus.VoteMessage{Vote: pc})
 				}
 			}
-			n.Inject(o, e.A[0], &consensus.VoteMessage{Vote: va.Copy()})
-			n.Inject(o, e.A[0], &consensus.VoteMessage{Vote: vb.Copy()})
+			n.Inject(o, offender, &consensus.VoteMessage{Vote: va.Copy()})
+			n.Inject(o, offender, &consensus.VoteMessage{Vote: vb.Copy()})
 		}
 	}
 	// 1b. gossip while the height is being decided (late evidence travels, evidence of this height is held back)
@@ -530,7 +549,7 @@ func TestNetReplay(t *testing.T) {
 		r := &netRun{f: f, net: net, res: res, exp: map[string]*types.DuplicateVoteEvidence{}, byHex: map[string]string{}, inBlk: map[string]uint64{},
 			rounds: map[string]uint32{}, wallclock: s.GenesisUnix != 0 && s.GenesisUnix < time.Now().Unix(),
 			detail: map[string]interface{}{"behaviour": script, "seed": mbt.Seed(),
-				"legend": "event = [kind 1 votes of the height being decided / 2 late precommits of the previous height / 3 the previous votes again / 4 like 1 after a private precommit / 5 Byzantine proposal (round = variant), round, type, observers, offender]"}}
+				"legend": "event = [kind 1 votes of the height being decided / 2 late precommits of the previous height / 3 the previous votes again / 4 like 1 after a private precommit / 5 Byzantine proposal (round = variant), round, type, observers, offender, block pair 0 different hashes / 1, 2 same hash, two part-set hashes, smaller / greater key shown first / 3 only the part-set total differs: no equivocation]"}}
 		res.Count(1)
 		res.Behaviour()
 		if events > 0 {
